@@ -204,3 +204,12 @@ def gx_format(d, texts, timeout=600):
     p = subprocess.run([os.path.join(d, "gxtool"), "format"], input="\n".join(json.dumps(t) for t in texts) + "\n",
                        stdout=subprocess.PIPE, stderr=subprocess.PIPE, text=True, env=GOENV, timeout=timeout)
     return [json.loads(l) for l in p.stdout.splitlines() if l.strip()]
+
+
+def gx_api(d, sources, timeout=600):
+    """AST view of Go sources (package, constraints, imports, types, funcs, methods with import-path-qualified signatures)"""
+    if not sources:
+        return []
+    p = subprocess.run([os.path.join(d, "gxtool"), "api"], input="\n".join(json.dumps(t) for t in sources) + "\n",
+                       stdout=subprocess.PIPE, stderr=subprocess.PIPE, text=True, env=GOENV, timeout=timeout)
+    return [json.loads(l) for l in p.stdout.splitlines() if l.strip()]
